@@ -162,12 +162,13 @@ var profC06 = &hist.Profile{
 	Name: "C06", MinOps: 12, MaxOps: 45, Topics: 4, Subs: 5,
 	W: map[string]int{
 		hist.OpPublish: 12, hist.OpPull: 26, hist.OpNack: 12, hist.OpModAck: 8, hist.OpAck: 5, hist.OpAdvance: 20, hist.OpSweep: 10,
-		hist.OpCreateSub: 6, hist.OpDeleteSub: 1, hist.OpDeleteTopic: 1, hist.OpCreateTopic: 1, hist.OpUpdateSub: 1,
+		hist.OpCreateSub: 6, hist.OpDeleteSub: 1, hist.OpDeleteTopic: 2, hist.OpCreateTopic: 1, hist.OpUpdateSub: 1, hist.OpJob: 3,
 	},
 	Ordered: 20, Keys: []string{"", "K1"}, Filters: hist.DefaultFilters,
 	DLPercent: 75, Attempts: []int{0, 1, 1, 2, 2, 3, 4}, Retry: 80,
 	MinBs: []time.Duration{100 * ms, 400 * ms, sec}, MaxBs: []time.Duration{0, sec, 10 * sec},
 	Rets: []time.Duration{0, hour}, NoSelfDL: true,
+	JobKinds: []string{"deleted-topics", "deleted-topics", "deleted-subscriptions", "expired-deliveries", "completed-messages"}, JobAges: []time.Duration{0, 0, sec},
 	Prelude: func(t *rapid.T, g *hist.Gen) {
 		preludeTopics(3)(t, g)
 		cfg := g.GenCfg("t0")
@@ -188,6 +189,7 @@ func TestC06(t *testing.T) {
 	// subscription shows up through the C01 / C02 rules on the target
 	sp := e1Spec{prop: "C06", profile: profC06, armed: []string{"C06", "C01", "C02"}, drain: true,
 		nontrivial: func(r *hist.Runner) bool { return r.M.C["forwards"] > 0 }}
+	runKnownCanaries(t, "C06")
 	rapid.Check(t, func(rt *rapid.T) { runE1(rt, s, sp) })
 }
 
